@@ -153,7 +153,7 @@ func (e *env) once(cs *caseRec) *result {
 		return res
 	}
 	res.Verdict = v
-	chdb, err := load(cs.DB, cs.Req.Cluster)
+	chdb, err := load(cs.DB, cs.Req.Cluster, cs.Req.WriterZoneS)
 	if err != nil {
 		res.Class, res.Why = "undecided", "table load: "+err.Error()
 		return res
@@ -513,6 +513,7 @@ func genCase(c *run.Ctx, idx int) *caseRec {
 		cs.Req.Complexity = portions*10000000 - int64(r.Intn(1000))
 	}
 	cs.Req.Cluster = r.Intn(100) < 15
+	cs.Req.WriterZoneS = []int64{0, 0, 39600, -28800, 19800}[cs.Idx%5]
 	return cs
 }
 
@@ -644,7 +645,7 @@ func replayDoc(cs *caseRec, r *result) any {
 // (the property does not say which tags such a request lists).
 func (e *env) tagsValues(cs *caseRec, st *stats) {
 	c := e.c
-	chdb, err := load(cs.DB, cs.Req.Cluster)
+	chdb, err := load(cs.DB, cs.Req.Cluster, cs.Req.WriterZoneS)
 	if err != nil {
 		return
 	}
@@ -693,7 +694,7 @@ func Main(c *run.Ctx) {
 	c.SetRule(rule)
 	c.Assume("E-CHSQL (DESIGN Appendix A) computes what ClickHouse would return for the statements qryn emits; tables hold one merged part in ORDER BY key order")
 	c.Assume("tables are filled as the writer fills them: one tempo_traces row per span, one tempo_traces_attrs_gin row per (span, key) with `name` and `service.name` always present, one value per key per span")
-	c.Assume("the reader process runs in UTC (the planner formats the date bounds in the process-local zone; zones are C13's subject)")
+	c.Assume("the reader process runs in UTC; the index tables' date column is the calendar day of the span in the writer's zone (UTC, UTC+11, UTC-8 or UTC+5:30 by case)")
 	c.Assume("ambiguity policy (Appendix E): regex anchoring, label scope, number-vs-text equality, numeric text grammar, association of mixed &&/|| and aggregates over no value are readings; a case is judged only if all readings agree")
 	n := c.Pick(2400, 40000)
 	total := &stats{Shapes: map[string]int{}}
